@@ -62,7 +62,7 @@ def poll_nodes(ctx, top):
 
 
 def run_spec(spec, knobs, choices=None, poll=True, drain_virtual=40.0,
-             attrs2=None):
+             attrs2=None, spec2=None):
     """
     spec: the top-level sched dict; knobs: see default_knobs();
     choices: None (seeded from knobs['sched_seed']) or a list to replay.
@@ -87,7 +87,10 @@ def run_spec(spec, knobs, choices=None, poll=True, drain_virtual=40.0,
             str(context.get('message')) + " | "
             + repr(context.get('exception'))))
     asyncio.set_event_loop(loop)
-    clock.activate(loop, knobs["wall_offset"])
+    jump = knobs.get("wall_jump")
+    if jump:
+        jump = (base + jump[0], jump[1])
+    clock.activate(loop, knobs["wall_offset"], jump)
     run.outcome, run.value = None, None
     run.post, run.post_sched, run.sd_value = {}, {}, None
     run.pending_at_return, run.drain_idle = [], None
@@ -130,7 +133,7 @@ def run_spec(spec, knobs, choices=None, poll=True, drain_virtual=40.0,
                         loop0.set_exception_handler(lambda _l, _c: None)
                         ctx.loop = loop0
                         asyncio.set_event_loop(loop0)
-                        clock.activate(loop0, knobs["wall_offset"])
+                        clock.activate(loop0, knobs["wall_offset"], jump)
                     try:
                         top.run()
                     except (SimDeadlock, SimLivelock, SimHorizon,
@@ -152,7 +155,7 @@ def run_spec(spec, knobs, choices=None, poll=True, drain_virtual=40.0,
                             loop0.close()
                             ctx.loop = loop
                             asyncio.set_event_loop(loop)
-                            clock.activate(loop, knobs["wall_offset"])
+                            clock.activate(loop, knobs["wall_offset"], jump)
                     ctx.log('mark', 'top', 'rerun')
                     run.seq_rerun = ctx.seq
                     for nid, attrs in attrs2.items():
@@ -177,7 +180,8 @@ def run_spec(spec, knobs, choices=None, poll=True, drain_virtual=40.0,
                                     critical=jspec['critical']
                                     != bool(jspec.get('crit_method'))))
                     run.t_begin = loop._now
-                    loop.horizon = loop._now + S.horizon(spec)
+                    # (spec2: the tree as it is for the second run)
+                    loop.horizon = loop._now + S.horizon(spec2 or spec)
                 if knobs["entry"] == "run":
                     run.value = top.run()
                 elif knobs["entry"] == "orchestrate":
